@@ -998,7 +998,14 @@ func judgeGroup(res *cgResult) proto.Rec {
 				vs.add("stale-identity", g.Kind, fmt.Sprintf("client %s sent %s with member id %q generation %d, which the coordinator never issued together", g.ClientID, g.Kind, g.Member, g.Generation))
 			}
 		}
-		if (g.Kind == "join" || g.Kind == "sync" || g.Kind == "heartbeat") && g.Code == int16(sarama.ErrUnknownMemberId) && g.Member != "" {
+		// fencing answers: UNKNOWN_MEMBER_ID anywhere, ILLEGAL_GENERATION on a join or sync (a heartbeat
+		// answered ILLEGAL_GENERATION only ends the session)
+		unknown := (g.Kind == "join" || g.Kind == "sync" || g.Kind == "heartbeat") && g.Code == int16(sarama.ErrUnknownMemberId)
+		illegal := (g.Kind == "join" || g.Kind == "sync") && g.Code == int16(sarama.ErrIllegalGeneration)
+		if (unknown || illegal) && g.Member != "" {
+			if illegal {
+				rec.Obs["fenced_by_illegal_generation"]++
+			}
 			if _, ok := fenced[g.ClientID]; !ok {
 				fenced[g.ClientID] = g.Seq
 			}
